@@ -120,7 +120,7 @@ def _not_inherited(pr):
     return pr.not_inherited
 
 
-@harness(props=["C09"], strength="B", family=lambda t, s: [{"shape": k} for k in SHAPES],
+@harness(props=["C09", "C10"], strength="B", family=lambda t, s: [{"shape": k} for k in SHAPES],
          bound="seven hierarchy shapes of 2..4 layers over the five layer types (chains, two parents of equal priority, a "
          "higher-priority parent settling a clash, diamond); per layer presence and equality of a same-named object "
          "and per parent reference its NOT-INHERITED flag are symbolic",
@@ -152,9 +152,9 @@ def value_inheritance(shape):
     H.cover("view")
     H.check("C09:an-unsettled-clash-is-reported-in-strict-mode", H.Or(H.Not(strict), not unsettled))
     if not any_clash:
-        H.check("C09:exactly-one-object-per-visible-name",
+        H.check("C09,C10:exactly-one-object-per-visible-name",
                 sorted([o.short_name for o in got]) == sorted(list(expected.keys())))
-        H.check("C09:visible-object-is-local-else-from-the-highest-priority-parent-not-excluding-it",
+        H.check("C09,C10:visible-object-is-local-else-from-the-highest-priority-parent-not-excluding-it",
                 all([(o is expected[o.short_name][0]) or (o == expected[o.short_name][0]) for o in got
                      if o.short_name in expected]))
         H.check("C09:local-definitions-override-inherited-ones",
@@ -397,7 +397,7 @@ def _pref(parent_name, not_inherited_services, not_inherited_gnrs):
                      not_inherited_global_neg_responses=list(not_inherited_gnrs))
 
 
-@harness(props=["C09"], strength="B", family=lambda t, s: [{"rounds": 2}],
+@harness(props=["C09", "C18"], strength="B", family=lambda t, s: [{"rounds": 2}],
          bound="a protocol, a functional group and a base variant in a chain; services and a global negative response "
          "defined in the protocol and in the functional group; the base variant's NOT-INHERITED lists symbolic (an "
          "object the parent defines itself / an object the parent only inherits); two refreshes",
@@ -462,6 +462,12 @@ def real_raw_layers_through_two_refreshes(rounds):
                     sorted([x.short_name for x in L.diag_services]) == sorted(want[name][0]))
             H.check("C09:global-negative-responses-of-every-layer-are-those-the-rule-prescribes-after-every-refresh",
                     sorted([x.short_name for x in L.global_negative_responses]) == sorted(want[name][1]))
+            # the layer's own (raw) service list holds every service the layer refers to, not only embedded ones
+            own = {"pr": pr_services, "fg": ["from_fg"], "bv": ["from_bv"]}[name]
+            H.check("C09,C18:own-services-of-a-layer-are-the-referenced-and-the-embedded-ones",
+                    H.And(sorted([x.short_name for x in L.diag_layer_raw.diag_services]) == sorted(own),
+                          sorted([x.short_name for x in L.diag_layer_raw.diag_comms]) == sorted(own),
+                          len(L.diag_layer_raw.single_ecu_jobs) == 0))
             us = L.diag_data_dictionary_spec.unit_spec
             H.check("C09:unit-groups-of-every-layer-are-its-own-plus-all-inherited-ones",
                     sorted([] if us is None else [x.short_name for x in us.unit_groups]) ==
